@@ -1,5 +1,6 @@
 """C08 - result adapters deliver each call once, at the richest protocol the target has.
-Input : [shape, history]                      (formats: harness/props/res_common.py, lean/TTV/Drv/Res.lean)
+Input : [shape, history] or [shape, history, faults]   (formats: harness/props/res_common.py, lean/TTV/Drv/Res.lean);
+        faults = tests for which the on_test callback of the TestByTestResult raises (linear stacks over one only)
 Trace : [[log, callbacks] per leaf, left to right]   log = [[call, current-tags] ...], callbacks of TestByTestResult =
         [test, status, start, stop, tags, details]
 """
@@ -17,14 +18,18 @@ class C08(Prop):
             'testtools.TestResult) and TestByTestResult; histories of 0-5 tests x 1-2 runs with tags/time/stop/done/progress between, '
             'outcomes as exc_info / reason / details dicts (0-3 text or binary attachments incl. whitespace, newlines, the names traceback '
             'and reason), tests being TestCase / PlaceHolder / ErrorHolder; 15% of the histories are damaged (call dropped, doubled or '
-            'swapped) when no TestByTestResult is in the graph. thorough adds every 1- and 2-test history (6 outcomes x 3 argument forms) '
+            'swapped) when no TestByTestResult is in the graph; 12% of the cases are linear stacks (0-3 ExtendedToOriginalDecorator / '
+            'TestResultDecorator / Tagger layers) over a TestByTestResult whose on_test callback raises for a random subset of the tests '
+            '(the harness catches the exception at the caller and carries on). thorough adds every 1- and 2-test history (6 outcomes x 3 argument forms) '
             'over every graph of depth <= 2 (MultiTestResult with <= 2 targets). non-trivial = at least one adapter above a leaf and at '
             'least one outcome; distinct = distinct input S-expression')
     assumptions = ['the recording results of the 2.6 / 2.7 / Twisted / extended flavours are the harness\'s own classes (after testtools.testresult.doubles); '
                    'testtools.TestResult / TestByTestResult are observed through subclasses that log every call before the upcall',
                    'CPython semantics of getattr probing, try/except TypeError protocol negotiation, dict order, str.strip (whitespace table in '
                    'TTV/Model/Result.lean isSpace) and sorted() on str are modelled, not verified',
-                   'exceptions escaping a result are not modelled: inputs on which the real code raises are outside the domain',
+                   'exceptions escaping a result are not modelled: inputs on which the real code raises are outside the domain - except a raising '
+                   'on_test callback of a TestByTestResult under a linear stack (no MultiTestResult / ThreadsafeForwardingResult above it): the '
+                   'exception is caught by the caller, which goes on reporting; every exception caught must come from a recorded callback',
                    'Content objects are reduced to text (decoded) / non-text (rendered content type) / traceback']
 
     manifest = {
@@ -34,7 +39,7 @@ class C08(Prop):
                 'in order, degraded only by the fixed table (skip, xfail -> success on 2.6; unexpected success -> failure; details -> '
                 '_StringException / reason); the degradation never makes a failing outcome passing; _details_to_str (modelled exactly over '
                 'code points) contains every non-empty text detail; TestByTestResult calls back once per stopTest with test, status word, '
-                'details (an empty details dict is details), times and tags.  The hand-written model is tied to the code by a differential check (random + bounded-exhaustive '
+                'details (an empty details dict is details), times and tags - also when the callback raises for some tests (linear stacks): later callbacks carry their own test\'s tags.  The hand-written model is tied to the code by a differential check (random + bounded-exhaustive '
                 'graphs x histories) and by the extracted status-word table.',
         'note': 'trusted: Lean kernel, the model TTV/Model/Result.lean, the harness (own recording results of the old flavours); exceptions escaping a result, getattr / TypeError protocol '
                 'negotiation and str.strip are modelled, not verified',
@@ -66,11 +71,26 @@ class C08(Prop):
 
     # ----- implementation side
     def run_impl(self, inp):
-        shape, hist = inp
+        shape, hist = inp[:2]
+        faults = set(inp[2]) if len(inp) > 2 else set()
         try:
             g = R.Graph(shape)
+            for l in g.leaves:
+                if hasattr(l, '_faults'):
+                    l._faults = faults
+            caught = []
             for c in hist:
-                g.apply(c)
+                try:
+                    g.apply(c)
+                except R.CallbackFault as e:
+                    if c[0] != 'stopTest' or c[1] != e.n:
+                        return ['raised', 'CallbackFault-at-' + c[0]]
+                    caught.append(e.n)
+            if faults:
+                # every faulting callback reached the caller, once, in order - and nothing else did
+                expected = [call[0] for l in g.leaves for call in getattr(l, '_calls', []) if call[0] in faults]
+                if caught != expected:
+                    return ['raised', 'CallbackFault-lost']
             return [[l._log, getattr(l, '_calls', [])] for l in g.leaves]
         except Exception as e:
             return ['raised', type(e).__name__]
@@ -128,6 +148,16 @@ class C08(Prop):
         shape = R.gen_shape(rng, rng.choice([1, 1, 2, 2, 3]), inner=('etod', 'deco', 'tagger', 'tfr', 'multi', 'multi'))
         while R.depth(shape) < 2 and rng.random() < 0.9:
             shape = R.gen_shape(rng, rng.choice([1, 2, 2, 3]), inner=('etod', 'deco', 'tagger', 'tfr', 'multi', 'multi'))
+        if rng.random() < 0.12:
+            # a linear stack over a TestByTestResult whose callback raises for some tests
+            shape = ['tbt']
+            for _ in range(rng.choice([0, 0, 1, 1, 2, 3])):
+                k = rng.choice(['etod', 'deco', 'tagger'])
+                shape = ['tagger', R.gen_tagset(rng, 6), [], shape] if k == 'tagger' else [k, shape]
+            hist = self.gen_hist(rng, shape, R.kinds_in(shape))
+            tests = sorted({c[1] for c in hist if c[0] == 'stopTest'})
+            faults = [t for t in tests if rng.random() < 0.4]
+            return [shape, hist, faults] if faults else [shape, hist]
         kinds = R.kinds_in(shape)
         return [shape, self.gen_hist(rng, shape, kinds)]
 
@@ -164,11 +194,11 @@ class C08(Prop):
                                    ['time', ['at', 3]], ['startTest', 3], ['add', k2, 3, a2], ['stopTest', 3]]]
 
     def nontrivial(self, inp, trace):
-        shape, hist = inp
+        shape, hist = inp[:2]
         return R.depth(shape) >= 2 and any(c[0] == 'add' for c in hist)
 
     def features(self, inp, trace):
-        shape, hist = inp
+        shape, hist = inp[:2]
         kinds = R.kinds_in(shape)
         f = ['depth=%d' % R.depth(shape), 'leaves=%d' % len([k for k in kinds if k.startswith('sink') or k in ('tt', 'tbt', 'text')]),
              'calls=%s' % (len(hist) if len(hist) < 30 else '30+'), 'tests=%d' % len([c for c in hist if c[0] == 'startTest'])]
@@ -182,17 +212,32 @@ class C08(Prop):
                 f.append('call:' + c[0])
         if trace and trace[0] == 'raised':
             f.append('raised:' + trace[1])
+        if len(inp) > 2:
+            stops = [c[1] for c in hist if c[0] == 'stopTest']
+            first = min([i for i, t in enumerate(stops) if t in inp[2]] or [len(stops)])
+            f += ['callback-raises', 'callback-raises:tests-after=%d' % min(len(stops) - first - 1, 3), 'callback-raises:root-' + shape[0]]
+            if any(c[0] == 'tags' for c in hist) or 'tagger' in kinds:
+                f.append('callback-raises+tags')
         return sorted(set(f))
 
     def shrink(self, inp):
-        shape, hist = inp
+        shape, hist = inp[:2]
+        faults = inp[2] if len(inp) > 2 else []
+        rest = [faults] if faults else []
         tbt = 'tbt' in R.kinds_in(shape)
+        for i in range(len(faults)):
+            yield [shape, hist] + ([faults[:i] + faults[i + 1:]] if len(faults) > 1 else [])
+        starts = [i for i, c in enumerate(hist) if c[0] == 'startTest']
+        for i in starts:      # a whole test at once (single calls cannot go when the history has to stay well-formed)
+            j = next((j for j in range(i, len(hist)) if hist[j][0] == 'stopTest'), None)
+            if j is not None:
+                yield [shape, hist[:i] + hist[j + 1:]] + rest
         for h in R.shrink_hist(hist):
             if not tbt or R.wf_hist(h):     # TestByTestResult raises on stopTest without startTest: outside the domain
-                yield [shape, h]
+                yield [shape, h] + rest
         for s in R.shrink_shape(shape):
-            if R.wf_shape(s):
-                yield [s, hist]
+            if R.wf_shape(s) and (not faults or R.linear_tbt(s)):
+                yield [s, hist] + rest
 
 
 PROP = C08()
